@@ -113,3 +113,35 @@ contract("usim._primitives.notification.Notification.__await__",
          on_signal=["loop.activity is me"], on_close=[],
          on_exit=[DEAD_NEW],
          props=["C03", "C20", "C07"])
+
+# __awake_all__: wake every waiter in subscription order (C02), leave nobody parked
+contract("usim._primitives.notification.Notification.__awake_all__",
+         inv_scope=["Notification", "Interrupt.parked_or_scheduled"],
+         params={"self": REF("Notification")}, returns=LIST(SUB),
+         ensures=["result == old(self._waiting)", "len(self._waiting) == 0",
+                  # pending gets exactly the old waiters, in order, after what was pending
+                  "len(loop._pending) == len(old(loop._pending)) + len(old(self._waiting))",
+                  "forall(int, lambda k: implies(0 <= k and k < len(old(loop._pending)), loop._pending[k] == old(loop._pending)[k]))",
+                  "forall(int, lambda k: implies(0 <= k and k < len(old(self._waiting)), "
+                  "       loop._pending[len(old(loop._pending)) + k] == Activation(old(self._waiting)[k][0], old(self._waiting)[k][1])))",
+                  "forall(old(self._waiting), lambda w: w[1].scheduled and w[1].due == loop.time)",
+                  "forall(Interrupt, lambda i: implies(not exists(old(self._waiting), lambda w: w[1] is i), "
+                  "       i.scheduled == old(i.scheduled) and i.target is old(i.target) and i.due == old(i.due)))",
+                  "loop.time == old(loop.time)"],
+         loop_invariants={"for#1": [
+             "len(self._waiting) == 0",
+             "len(loop._pending) == len(old(loop._pending)) + _i",
+             "forall(int, lambda k: implies(0 <= k and k < len(old(loop._pending)), loop._pending[k] == old(loop._pending)[k]))",
+             "forall(int, lambda k: implies(0 <= k and k < _i, "
+             "       loop._pending[len(old(loop._pending)) + k] == Activation(old(self._waiting)[k][0], old(self._waiting)[k][1])))",
+             "forall(int, lambda k: implies(0 <= k and k < _i, old(self._waiting)[k][1].scheduled and old(self._waiting)[k][1].due == loop.time))",
+             "forall(int, lambda k: implies(_i <= k and k < len(old(self._waiting)), not old(self._waiting)[k][1].scheduled))",
+             "loop.time == old(loop.time)", "awoken == old(self._waiting)",
+             # frame of the iterations so far
+             'unchanged("WaitQueue.qlen", "WaitQueue.qitems")', 'unchanged_except("Loop._pending", loop)',
+             "forall(Interrupt, lambda i: implies(not exists(awoken, lambda w: w[1] is i), "
+             "       i.scheduled == old(i.scheduled) and i.target is old(i.target) and i.due == old(i.due)))",
+             "forall(awoken, lambda w: w[1].target is w[0])",
+         ]},
+         modifies=["Notification._waiting@self", "Loop._pending@loop", "Interrupt.scheduled", "Interrupt.target", "Interrupt.due"],
+         props=["C02", "C08", "C10", "C11", "C13"])
